@@ -151,7 +151,20 @@ def run(chk) -> None:
     ok = mat is not None and any(isinstance(c, ast.Call) and isinstance(c.func, ast.Attribute) and c.func.attr == "append" for c in ast.walk(mat)) and not any(isinstance(c, ast.Call) and isinstance(c.func, ast.Attribute) and c.func.attr == "insert" for c in ast.walk(mat))
     chk.ob("C13.R2", "the memory store appends ticks at the end of the run's list", ok, m=mmem, node=mat or mmem.tree, fn=mat, instance="tick-order:memory", reason="append_tick does not append")
     _, swt = repo.func("llama_agents.server._store.abstract_workflow_store:stream_workflow_ticks")
-    ok = any(isinstance(l, ast.AsyncFor) and "stream_ticks" in ast.unparse(l.iter) and any(isinstance(y, ast.Yield) and "validate_python" in ast.unparse(y) and ast.unparse(l.target) in ast.unparse(y) for y in ast.walk(l)) for l in ast.walk(swt))
+    from ..astx import expand as _expand
+    ok = any(isinstance(l, ast.AsyncFor) and "stream_ticks" in ast.unparse(l.iter) and any(isinstance(y, ast.Yield) and y.value is not None and "validate_python" in ast.unparse(_expand(y.value, y, depth=2)) and ast.unparse(l.target) in ast.unparse(_expand(y.value, y, depth=2)) for y in ast.walk(l)) for l in ast.walk(swt))
+    # … and no iteration skips its yield: every stored row reaches the replay (no filter, no de-duplication on the read side —
+    # two equal events accepted back to back are two rows, and both must be replayed)
+    from ..astx import iteration_can_skip
+    for gfn, gmod, label in [(swt, repo.module("llama_agents.server._store.abstract_workflow_store"), "stream_workflow_ticks")] + [(g_, mp, f"context_from_ticks.{g_.name}") for g_ in inner]:
+        for l in [x for x in ast.walk(gfn) if isinstance(x, (ast.AsyncFor, ast.For)) and ("tick" in ast.unparse(x.iter))]:
+            ys = [y for y in ast.walk(l) if isinstance(y, ast.Yield)]
+            if not ys:
+                continue
+            skip = iteration_can_skip(CFG(gfn), l, ys)
+            ok = ok and not skip
+            chk.ob("C13.R2", f"{label}: every tick read from the store is passed on (no iteration skips the yield)", not skip, m=gmod, node=l, fn=gfn, instance=f"tick-stream:no-skip:{label}",
+                   reason="an iteration of the read loop can go on to the next row without yielding: stored ticks are dropped from the replay, the resumed run loses accepted work or fails on the orphaned results")
     chk.ob("C13.R2", "stream_workflow_ticks yields every stored tick, validated, in store order", ok, m=repo.module("llama_agents.server._store.abstract_workflow_store"), node=swt, fn=swt, instance="tick-stream:all", reason="stream_workflow_ticks does not yield each stored tick")
 
     # ---------------------------------------------------------------- R3 finalize instead of re-run
@@ -209,6 +222,8 @@ def run(chk) -> None:
 
 
 TWINS = [
+    Twin("read side drops a row equal to the previous one", "packages/llama-agents-server/src/llama_agents/server/_store/abstract_workflow_store.py", "    async for stored in store.stream_ticks(run_id):\n        yield WorkflowTickAdapter.validate_python(stored.tick_data)", "    previous = None\n    async for stored in store.stream_ticks(run_id):\n        if stored.tick_data == previous:\n            continue\n        previous = stored.tick_data\n        yield WorkflowTickAdapter.validate_python(stored.tick_data)", "C13.R2"),
+    Twin("benign: validated tick bound to a local before the yield", "packages/llama-agents-server/src/llama_agents/server/_store/abstract_workflow_store.py", "    async for stored in store.stream_ticks(run_id):\n        yield WorkflowTickAdapter.validate_python(stored.tick_data)", "    async for stored in store.stream_ticks(run_id):\n        validated = WorkflowTickAdapter.validate_python(stored.tick_data)\n        yield validated", None),
     Twin("persist fire and forget", PR_REL, "            await self._store.append_tick(self.run_id, tick_data)", "            asyncio.ensure_future(self._store.append_tick(self.run_id, tick_data))", "C13.R2"),
     Twin("persist only step results", PR_REL, "        await super().on_tick(tick)\n        tick_data = WorkflowTickAdapter.dump_python(tick, mode=\"json\")\n        try:\n            await self._store.append_tick", "        await super().on_tick(tick)\n        if not isinstance(tick, TickStepResult):\n            return\n        tick_data = WorkflowTickAdapter.dump_python(tick, mode=\"json\")\n        try:\n            await self._store.append_tick", "C13.R2"),
     Twin("cancel finalized as failed", PR_REL, "    if isinstance(command.exception, WorkflowCancelledByUser):\n        return (\"cancelled\", None, None)\n", "", "C13.R3"),
